@@ -333,3 +333,31 @@ func (h *hCtx) halfStoredBatch(c *chainT, height int64) {
 	rng.Read(d)
 	h.sendConfirm(c, keyT{"batch", token, cur}, or.bridger.String(), or.ext, hex.EncodeToString(c.sign(d, or.key)), d, "half-stored-batch")
 }
+
+// aliasPair: objects of one kind whose nonces agree in all but one byte (n, n + 2^8k) and a direct neighbour, all honestly
+// confirmed by the SAME oracle — a store key that drops or truncates part of the nonce files them under one key (the second
+// honest confirm is then a "duplicate", or replaces the first)
+func (h *hCtx) aliasPair(c *chainT) {
+	rng := h.rng
+	if len(c.oracles) == 0 {
+		return
+	}
+	kind := []string{"oset", "batch", "bcall"}[rng.Intn(3)]
+	tok := c.tokens[rng.Intn(2)]
+	tokS := ""
+	if kind == "batch" {
+		tokS = c.addrStr(tok)
+	}
+	base := uint64(5_000_000 + rng.Intn(1_000_000))
+	shift := uint([]int{8, 16, 24, 32, 40, 48, 56}[rng.Intn(7)])
+	or := c.oracles[rng.Intn(len(c.oracles))]
+	for _, n := range []uint64{base, base + 1<<shift, base + 1} {
+		if n >= 1<<63 || c.has(kind, tokS, n) {
+			continue
+		}
+		if o := h.storeOfKind(c, kind, tok, n); o != nil && o.digest != nil {
+			h.honest(c, o, or, "alias-pair")
+		}
+	}
+	h.out.Count(fmt.Sprintf("alias-pair:%s:shift=%d", kind, shift))
+}
